@@ -15,7 +15,7 @@ import random
 
 from vmon import env  # noqa: F401
 from vmon.suitemon import suite_case
-from vmon.simkit import Top, Mon, spell_features
+from vmon.simkit import Top, Mon, spell_features, new_map
 from vmon.sanitize import StepCounter, StepBound, judge_exception
 from vmon.models.csrmux import f3_unsatisfiable
 from vmon.models.memmap import live_all, live_windows, live_resources
@@ -229,7 +229,7 @@ def b_csrdec(case, rng, P):
         k = rng.randint(1, aw)
         sdw = dw if rng.random() < 0.9 else rng.choice([8, 16])
         sub = csr.Interface(addr_width=I(k), data_width=I(sdw), path=(f"s{i}",))
-        sub.memory_map = MemoryMap(addr_width=k, data_width=sdw)
+        sub.memory_map = new_map(addr_width=k, data_width=sdw)
         P["subs"].append((k, sdw))
         try:
             dec.add(sub, name=rng.choice([None, f"w{i}", ("w", i)]),
@@ -269,7 +269,7 @@ def b_wbdec(case, rng, P):
             sfeat -= {"err", "rty", "stall"} - feats
         sub = wishbone.Interface(addr_width=I(saw), data_width=I(sdw), granularity=I(sgran), features=sfeat, path=(f"s{i}",))
         smap_aw = max(1, saw + ((sdw // sgran).bit_length() - 1))
-        sub.memory_map = MemoryMap(addr_width=smap_aw, data_width=sgran)
+        sub.memory_map = new_map(addr_width=smap_aw, data_width=sgran)
         P["subs"].append((saw, sdw, sgran, sparse, sorted(sfeat)))
         try:
             dec.add(sub, name=rng.choice([None, f"w{i}"]), sparse=sparse)
@@ -333,7 +333,7 @@ def b_wbbridge(case, rng, P):
     caw = rng.randint(1, 10)
     P.update(cdw=cdw, wdw=wdw, caw=caw)
     cb = csr.Interface(addr_width=I(caw), data_width=I(cdw), path=("csr",))
-    cb.memory_map = MemoryMap(addr_width=caw, data_width=cdw)
+    cb.memory_map = new_map(addr_width=caw, data_width=cdw)
     dut = WishboneCSRBridge(cb, data_width=I(wdw), name=rng.choice([None, "csr", ("csr", 0)]))
     late_resource(rng, P, "csr side of the bridge", cb.memory_map)
     return dut, [cb], lambda: map_meta(dut.wb_bus.memory_map), None
